@@ -25,8 +25,9 @@ func (m *Mutex) Lock() {
 		m.real.Lock()
 		return
 	}
-	vsched.Point("lock")
-	vsched.Block("mutex", func() bool { return !m.locked }, 0)
+	// acquiring is one transition that is enabled while the lock is free (waiting for a held lock has no effect anyone
+	// can observe, so it is not a separate step)
+	vsched.PointWhen("lock", func() bool { return !m.locked }, 0)
 	m.locked = true
 	m.owner = vsched.ThreadID()
 }
@@ -74,8 +75,7 @@ func (m *RWMutex) Lock() {
 		m.real.Lock()
 		return
 	}
-	vsched.Point("lock")
-	vsched.Block("rwmutex.Lock", func() bool { return !m.writer && m.readers == 0 }, 0)
+	vsched.PointWhen("lock", func() bool { return !m.writer && m.readers == 0 }, 0)
 	m.writer = true
 }
 
@@ -102,8 +102,7 @@ func (m *RWMutex) RLock() {
 		m.real.RLock()
 		return
 	}
-	vsched.Point("rlock")
-	vsched.Block("rwmutex.RLock", func() bool { return !m.writer }, 0)
+	vsched.PointWhen("rlock", func() bool { return !m.writer }, 0)
 	m.readers++
 }
 
@@ -203,6 +202,5 @@ func (w *WaitGroup) Wait() {
 		w.real.Wait()
 		return
 	}
-	vsched.Point("wg.wait")
-	vsched.Block("wg.wait", func() bool { return w.n == 0 }, 0)
+	vsched.PointWhen("wg.wait", func() bool { return w.n == 0 }, 0)
 }
